@@ -137,7 +137,11 @@ func checkC16Src(c caseC16, rec *ev.Rec) *ev.Failure {
 			return nil
 		}
 	}
+	h := ev.Hash64(b.Stream)
 	for _, dc := range []int{readerDict("lzma2", b), 1 << 20} {
+		// an earlier Reader2 of the same capacity that failed or was abandoned
+		// must not influence this one
+		priorDecode("lzma2", b.Stream, dc, []string{"trunc", "flip", "abandon"}[h%3], int(300+h%650))
 		got, err := decodeAll("lzma2", b.Stream, dc)
 		if err != nil {
 			return ev.Fail(fmt.Sprintf("Reader2 (DictCap %d) rejects a legal generated chunk sequence after %d of %d bytes: %v", dc, len(got), len(b.Content), err),
